@@ -25,7 +25,8 @@ EXTENDS Position, TLC, Json
 
 CONSTANTS MaxLen
 VARIABLES hist, done,
-          dl1, dlt,     \* data-state model: [t, p], t = 0 means "none yet"
+          dl1, dlt,     \* data-state model: dl1 = [t, has, p] the L1 held (has: both sides present, p its
+                        \* mid), dlt = [t, p] the last public trade; t = 0 means "none yet"
           tfill,        \* exchange time of the last fill (0 = none)
           now,          \* largest exchange time used so far
           uset          \* values pos.unreal may have now (a set because of MarkStale)
@@ -54,7 +55,7 @@ ExJ(c) == [side |-> c.side, avg |-> RJ(c.avg), qmax |-> RJ(c.qmax), real |-> RJ(
            feeIn |-> RJ(c.feeIn), feeOut |-> RJ(c.feeOut), trades |-> c.trades,
            tin |-> c.tin, tout |-> c.tout]
 
-DPrice(l1, lt) == IF l1.t > 0 THEN <<TRUE, l1.p>> ELSE IF lt.t > 0 THEN <<TRUE, lt.p>> ELSE <<FALSE, Zero>>
+DPrice(l1, lt) == IF l1.has THEN <<TRUE, l1.p>> ELSE IF lt.t > 0 THEN <<TRUE, lt.p>> ELSE <<FALSE, Zero>>
 PriceJ(pr) == IF pr[1] THEN RJ(pr[2]) ELSE "none"
 
 FillRec ==
@@ -66,7 +67,7 @@ FillRec ==
 
 GInit == /\ Init
          /\ hist = <<>> /\ done = FALSE
-         /\ dl1 = [t |-> 0, p |-> Zero] /\ dlt = [t |-> 0, p |-> Zero]
+         /\ dl1 = [t |-> 0, has |-> FALSE, p |-> Zero] /\ dlt = [t |-> 0, p |-> Zero]
          /\ tfill = 0 /\ now = 0 /\ uset = {}
 
 Max(a, b) == IF a > b THEN a ELSE b
@@ -120,8 +121,14 @@ GFillM == /\ ~done /\ Len(hist) < MaxLen
                 GFillAt(a[1], a[2], a[3], a[4], TimeOf(r, u))
 
 \* ------------------------------------------------------------------ market events
+\* kinds: "trade" public trade at m; "l1" top-of-book with mid m; "l1bid" / "l1ask" / "l1none" a
+\* top-of-book with only a bid / only an ask / no level (no mid: once adopted the price falls back to
+\* the last public trade, or to none); "candle" / "liq" kinds the default data state ignores.
+\* After ANY market event: position open and price() defined -> Mark(price(), newer), else the
+\* event is a stutter for the position (MarkNoPrice) - also before the first priced event.
+L1Kinds == {"l1", "l1bid", "l1ask", "l1none"}
 GMkt(kind, m, t) ==
-    LET l1n == IF kind = "l1" /\ dl1.t < t THEN [t |-> t, p |-> R(m)] ELSE dl1
+    LET l1n == IF kind \in L1Kinds /\ dl1.t < t THEN [t |-> t, has |-> kind = "l1", p |-> R(m)] ELSE dl1
         ltn == IF kind = "trade" /\ (dlt.t = 0 \/ dlt.t < t) THEN [t |-> t, p |-> R(m)] ELSE dlt
         pr  == DPrice(l1n, ltn)
         newer == t > tfill
@@ -132,7 +139,7 @@ GMkt(kind, m, t) ==
           THEN /\ Mark(pr[2], newer)
                /\ uset' = IF newer \/ fresh # "fill" THEN {Estimate(pos, pr[2])}
                           ELSE uset \cup {Estimate(pos, pr[2])}
-          ELSE /\ UNCHANGED vars
+          ELSE /\ MarkNoPrice
                /\ uset' = uset
        /\ hist' = Append(hist,
              [a |-> "Mkt", kind |-> kind, p |-> R(m), t |-> t, newer |-> newer,
@@ -140,10 +147,13 @@ GMkt(kind, m, t) ==
               fresh |-> fresh,
               exp |-> [pos |-> PosJ(pos', uset'), exit |-> [side |-> "none"], price |-> PriceJ(pr)]])
 
+KindOf(r) == CASE r <= 3 -> "trade" [] r <= 6 -> "l1" [] r = 7 -> "l1bid" [] r = 8 -> "l1ask"
+               [] r = 9 -> "l1none" [] r = 10 -> "candle" [] OTHER -> "liq"
+
 GMktR == /\ ~done /\ Len(hist) < MaxLen
-         /\ \E k \in {Rnd({"trade", "l1"}, hist)}, m \in {Rnd(MARK, hist)},
+         /\ \E k \in {Rnd(1..11, hist)}, m \in {Rnd(MARK, hist)},
                r \in {Rnd(1..5, hist)}, u \in {Rnd(1..(now + 1), hist)} :
-               GMkt(k, m, TimeOf(r, u))
+               GMkt(KindOf(k), m, TimeOf(r, u))
 
 \* (the guard comes first on purpose: TLC splits an action at a top-level \E at start-up and would
 \*  evaluate the draw once for the whole run)
